@@ -1255,6 +1255,19 @@ impl<F: FromUniformBytes<64> + Ord> MockProver<F> {
     pub fn permutation(&self) -> &Assembly {
         &self.permutation
     }
+
+    /// Verification hook: mutable access to the advice table, so that a
+    /// harness can inject a fault into a cell after synthesis.
+    #[cfg(feature = "verif-hooks")]
+    pub fn advice_mut(&mut self) -> &mut Vec<Vec<CellValue<F>>> {
+        &mut self.advice
+    }
+
+    /// Verification hook: mutable access to the instance table.
+    #[cfg(feature = "verif-hooks")]
+    pub fn instance_mut(&mut self) -> &mut Vec<Vec<InstanceValue<F>>> {
+        &mut self.instance
+    }
 }
 
 #[cfg(test)]
